@@ -177,7 +177,11 @@ class Monitor:
                               k.boot_failure_reaped_at - k.t0, k.now - k.t0)))
                 return v
             target = self.target_delivered
-            if sc.get("flood"):
+            per_instant = {}
+            for ev in sc["events"]:
+                if ev["type"] == "signal":
+                    per_instant[ev["at"]] = per_instant.get(ev["at"], 0) + 1
+            if sc.get("flood") or max(per_instant.values(), default=0) > 5:
                 # signals beyond the queue's capacity coalesce (are dropped): the model follows what the arbiter dequeued
                 target = self.target_handled
             effective = [p for p in run if not any(s in (TERM, int(signal.SIGKILL), int(signal.SIGQUIT), int(signal.SIGABRT))
